@@ -17,7 +17,7 @@ RULE = ('seeded generator: seeds 0..2^32, signal levels 0..1e12 (Gaussian approx
 ASSUMPTIONS = ['statistical bounds are set at >= 7 sigma of the estimator (false-alarm probability < 1e-11 per test)',
                '"rejects" means raises an exception instead of returning a frame']
 PLAN = {'quick': {'gen': 8}, 'thorough': {'gen': 16, 'tests': 1, 'docs': 1}}
-REQUIRED_BUCKETS = ['shot:poisson', 'shot:poisson-large', 'shot:poisson-mixed', 'shot:gaussian-bias', 'shot:reject-negative:bright-frame', 'dark:large-rate', 'dark:near-integer-rate', 'shot:gaussian', 'shot:reject-negative', 'shot:reject-huge', 'shot:reject-array',
+REQUIRED_BUCKETS = ['shot:frame-dtype', 'shot:poisson', 'shot:poisson-large', 'shot:poisson-mixed', 'shot:gaussian-bias', 'shot:reject-negative:bright-frame', 'dark:large-rate', 'dark:near-integer-rate', 'shot:gaussian', 'shot:reject-negative', 'shot:reject-huge', 'shot:reject-array',
                     'read_noise', 'read_noise:small-frames', 'read_noise:cube', 'dark:nofpn', 'dark:fpn', 'rule07', 'psd:square', 'psd:nonsquare', 'cosmic', 'cosmic:long-side', 'cosmic:very-long-strip', 'fresh-process']
 REQUIRED_ANCHORS = ['anchor:shot_noise', 'anchor:read_noise', 'anchor:dark_current', 'anchor:power_spectrum',
                     'anchor:_cosmic_ray', 'anchor:_nrays']
@@ -151,6 +151,35 @@ def workload(ctx, lentil):
         ctx.check(abs(m) <= 7 * np.sqrt(lam / Ng) and abs(v - lam) <= 0.2 + 7 * lam * np.sqrt(2.0 / Ng), 'gaussian:moments',
                   'gaussian|moments|bias', 'Gaussian shot noise does not have mean and variance equal to the signal (7 sigma on 4e6 pixels: '
                   'the mean is biased)', {'lam': lam, 'mean-lam': m, 'var': v, 'sigma_of_mean': float(np.sqrt(lam / Ng))})
+    # the same counts in whatever type a camera driver or an earlier processing step delivers them (8- and 16-bit integers, half /
+    # single / extended precision, a -0.0 left behind by rounding): the draw is a function of the counts and the seed
+    for i in range(max(4, n // 20)):
+        seed = int(rng.integers(0, 2 ** 32))
+        shape_ = gen.rshape(rng, 8, 40)
+        counts = rng.integers(0, 250, size=shape_).astype(float)        # exact in every type below
+        if i % 2:
+            counts = counts + 1000.0 * (rng.random(shape_) < 0.5)        # (up to 1249: still exact in half precision)
+        for meth in ('poisson', 'gaussian'):
+            ctx.case({'shot-frame-dtype': meth, 'shape': list(shape_), 'seed': seed}, ['shot:frame-dtype'])
+            try:
+                ref = np.asarray(D.shot_noise(counts, meth, seed=seed), float)
+            except Exception as e:
+                ctx.check(False, 'deterministic', f'shot|frame-dtype|raises={type(e).__name__}', str(e), {'method': meth})
+                continue
+            forms = [(np.dtype(t).name, counts.astype(t)) for t in (np.uint16, np.int32, np.float32, np.float16, np.longdouble)]
+            if counts.max() < 256:
+                forms.append(('uint8', counts.astype(np.uint8)))
+            negz = counts.copy()
+            negz[counts == 0] = -0.0
+            forms.append(('minus-zero', negz))
+            for nm_, fr in forms:
+                try:
+                    got = np.asarray(D.shot_noise(fr, meth, seed=seed), float)
+                    ctx.check(got.shape == ref.shape and np.array_equal(got, ref), 'deterministic', f'shot|frame-dtype|{meth}',
+                              'the same counts with the same seed give another frame when they are held in another numeric type',
+                              {'method': meth, 'type': nm_, 'differ': int(np.sum(got != ref)) if got.shape == ref.shape else -1})
+                except Exception as e:
+                    ctx.check(False, 'deterministic', f'shot|frame-dtype|{meth}|raises={type(e).__name__}', f'{nm_}: {e}', {'method': meth, 'type': nm_})
     # one frame holding both faint pixels and pixels beyond 1e12 counts (a saturated star on a dark sky): every pixel is drawn from
     # its own distribution
     for i in range(max(4, n // 10)):
